@@ -14,6 +14,9 @@ x unquoted / double-quoted x affixes x argument positions.  Three comparisons pe
 L2 (real binary, `cicada -c`): helper hp as the program: exit status 7 comes back (the helper ran
 in the foreground and was waited for), exactly the expected helper runs were recorded, argv
 carries the produced text, the set of files in the scratch directory is unchanged.
+Mixed lines (L1 and L2-mixed): the operator-only values (`<`, `<<<`, `>`, `>>`, `|`, `&`, `2>&1`, ...) double-quoted on
+lines that ALSO carry one genuine operator (`< f`, `<<< w`, `> f`, `>> f`, `2>&1`, `| sink`, trailing `&`), value before
+and after it: the plan / the observable behaviour must be exactly that of a harmless value in the same place.
 Known-finding classes (mirroring Known_C13 of Properties/C13.v) are handled three-way."""
 import os, re, shutil, subprocess, tempfile
 import common as C
@@ -25,7 +28,8 @@ NEEDS_CICADA = True
 ALLOWED_AXIOMS = []
 PINNED = ["C13_dq", "C13_unquoted_full", "C13_refuted", "C13_unquoted_partial", "C13_unquoted_exact", "Known_C13",
           "C13_subst_refuted", "C13_glob_refuted", "C13_output_refuted", "C13_post_passes", "C13_post_passes_exact",
-          "C13_known_is_not_inert", "C13_witness_pipe", "C13_witness_gt", "C13_witness_amp", "C13_witness_lt", "C13_nonvacuous"]
+          "C13_known_is_not_inert", "C13_unquoted_exact_text", "C13_tokenize_unquoted", "C13_post_passes_from",
+          "C13_dq_with_input", "C13_witness_value_and_genuine_lt", "C13_witness_pipe", "C13_witness_gt", "C13_witness_amp", "C13_witness_lt", "C13_nonvacuous"]
 TRUSTED = [
     "Coq 8.16.1 kernel (coqc; coqchk in thorough); vm_compute only in concrete witnesses / non-vacuity examples",
     "hand transcriptions composed by Model/FullPlan.v: parse_line (Model/Tokenizer.v), do_expansion and its passes "
